@@ -63,7 +63,7 @@ func (t *timeoutFuture) Error() error {
 		return t.err
 	}
 
-	errC := make(chan error)
+	errC := make(chan error, 1)
 	go func() {
 		err := t.wrapped.Error()
 		select {
